@@ -2,6 +2,7 @@ package main
 
 import (
 	"fmt"
+	"go/token"
 	"go/types"
 	"sort"
 	"strings"
@@ -26,6 +27,7 @@ type envFlow struct {
 	fn    *ssa.Function
 	base  ssa.Value
 	entry map[ssa.Value]bool // loads of the env cell that see the value the function was entered with
+	ctors map[*ssa.Function]token.Pos // env methods whose result the flow took for a fresh child of their receiver
 }
 
 // The state is "<current>;<pending>": what the scope cell holds now, and what a deferred function literal registered so far will
@@ -76,6 +78,11 @@ func (f *envFlow) classify(v ssa.Value) string {
 	if c != nil {
 		if callee := staticCallee(c); callee != nil && callee.Pkg != nil && callee.Pkg.Pkg.Path() == modPath+"/env" && callee.Signature.Recv() != nil &&
 			len(c.Call.Args) >= 1 && f.classify(c.Call.Args[0]) == envOrig && callee.Signature.Results().Len() >= 1 && isNamed(callee.Signature.Results().At(0).Type(), modPath+"/env", "Env") {
+			if f.ctors != nil {
+				if _, ok := f.ctors[callee]; !ok {
+					f.ctors[callee] = c.Pos()
+				}
+			}
 			return envChild
 		}
 	}
@@ -165,6 +172,7 @@ func checkC04(p *Program, r *Report) {
 		"R2 every statement evaluated by such a function runs in Child; the scope-switching handlers are the handlers of if, try, the loop forms, for-in, switch and module (floor 7). " +
 		"R3 binding discipline: only the identifier clause of the assignment dispatcher (and module member assignment) may call SetValue, and it defines in the current scope only on SetValue's error edge with the same name and value; every other binding form (var, for-in variables, catch variable, parameters, function names) goes through DefineValue on the current scope; nothing in vm calls DefineGlobal*. " +
 		"R4 a function value captures the scope cell of its defining record by value at creation, and every invocation builds a fresh record whose scope is a fresh child of the captured scope, defining parameters there.")
+	r.Explain("R2 also covers workers: a function that runs its node's body without switching scope itself (the per-kind workers of for-in) is called only with a fresh child scope current. R5 the env methods the flow takes for child constructors return a scope allocated in the call whose parent link is the receiver.")
 	r.Assume("lookup along the parent chain is decided under C12.R4; names themselves are not value-dependent")
 	m, err := buildVMModel(p)
 	if err != nil {
@@ -174,6 +182,8 @@ func checkC04(p *Program, r *Report) {
 	va := buildEvalAnalysis(m)
 	nFuncs, nReturns := 0, 0
 	var switching []string
+	befores := map[*ssa.Function]map[ssa.Instruction]string{}
+	ctors := map[*ssa.Function]token.Pos{}
 	for _, fn := range m.funcsOnRecord() {
 		base := m.baseOf(fn)
 		if _, isParam := base.(*ssa.Parameter); !isParam {
@@ -201,7 +211,7 @@ func checkC04(p *Program, r *Report) {
 				}
 			}
 		}
-		fl := &envFlow{m: m, fn: fn, base: base, entry: map[ssa.Value]bool{}}
+		fl := &envFlow{m: m, fn: fn, base: base, entry: map[ssa.Value]bool{}, ctors: ctors}
 		for _, b := range fn.Blocks {
 			for _, in := range b.Instrs {
 				u, ok := in.(*ssa.UnOp)
@@ -222,6 +232,7 @@ func checkC04(p *Program, r *Report) {
 			}
 		}
 		before, _ := runForward[string](fn, fl)
+		befores[fn] = before
 		ri := 0
 		seenRet := map[string]int{}
 		for _, b := range fn.Blocks {
@@ -253,6 +264,76 @@ func checkC04(p *Program, r *Report) {
 			r.Check(envCur(st) == envChild, "C04.R2", inst, p.Pos(e.call.Pos()), "statement runs in a fresh child of the entry scope", "a block statement runs in "+describeEnv(envCur(st))+" instead of a fresh child scope: its bindings leak or shadow wrongly")
 		}
 	}
+	// R2, through helpers: a function that runs the body of its node without switching the scope itself (the per-kind workers of
+	// for-in) relies on its caller: every call of it is made with the scope cell holding a fresh child.
+	seqHandler := m.handlers["stmt"]["StmtsStmt"]
+	nHelp := 0
+	for _, h := range m.funcsOnRecord() {
+		if _, isParam := m.baseOf(h).(*ssa.Parameter); !isParam || len(m.envStores(h)) > 0 || h == seqHandler {
+			continue
+		}
+		body := ""
+		for _, e := range va.events[h] {
+			if e.role == "stmt" && len(e.operands) > 0 && strings.HasPrefix(e.operands[0], "node.") {
+				body = normIdx(strings.Join(e.operands, "|"))
+			}
+		}
+		if body == "" {
+			continue
+		}
+		nHelp++
+		var visit func(g *ssa.Function, seen map[*ssa.Function]bool)
+		visit = func(g *ssa.Function, seen map[*ssa.Function]bool) {
+			if seen[g] {
+				return
+			}
+			seen[g] = true
+			calls := 0
+			for _, caller := range m.funcsOnRecord() {
+				cbase := m.baseOf(caller)
+				for _, b := range caller.Blocks {
+					for _, in := range b.Instrs {
+						c, ok := in.(*ssa.Call)
+						if !ok || m.calleeOnBase(c, cbase) != g {
+							continue
+						}
+						calls++
+						inst := fmt.Sprintf("%s|stmt %s|called from %s", funcName(h), body, funcName(caller))
+						if bf, sw := befores[caller]; sw {
+							st, reach := bf[c]
+							if !reach {
+								continue
+							}
+							r.Check(envCur(st) == envChild, "C04.R2", inst, p.Pos(c.Pos()), "the worker that runs the body is called with a fresh child scope current",
+								"the worker that runs this construct's body is called with "+describeEnv(envCur(st))+" current instead of a fresh child scope: the loop variables and the body's bindings land in the enclosing block and stay visible after the construct")
+						} else if _, isParam := cbase.(*ssa.Parameter); isParam && len(m.envStores(caller)) == 0 {
+							visit(caller, seen)
+						} else {
+							r.Undecided("C04.R2", inst, p.Pos(c.Pos()), "caller of a body-running worker is not a scope-switching handler")
+						}
+					}
+				}
+			}
+			if calls == 0 && g == h {
+				r.Undecided("C04.R2", funcName(h)+"|stmt "+body, p.Pos(h.Pos()), "no static call of this body-running worker found")
+			}
+		}
+		visit(h, map[*ssa.Function]bool{})
+	}
+	r.Floor("C04.R2", nHelp, 3)
+	// R5: what the flow above takes for "a fresh child of the current scope" really is one: the env method called returns a scope
+	// allocated in the call whose parent link is the receiver itself.
+	var cs []*ssa.Function
+	for c := range ctors {
+		cs = append(cs, c)
+	}
+	sort.Slice(cs, func(i, j int) bool { return funcName(cs[i]) < funcName(cs[j]) })
+	for _, c := range cs {
+		why := childOfReceiver(c, map[*ssa.Function]bool{})
+		r.Check(why == "", "C04.R5", funcName(c)+"|child of its receiver", p.Pos(c.Pos()), "returns a scope allocated in the call whose parent is the receiver",
+			"vm switches to the result of this method as the block's own scope, but "+why+": the block's scope is not a direct child of the scope it was opened in, so names resolve past enclosing blocks or bindings leak")
+	}
+	r.Floor("C04.R5", len(cs), 1)
 	sort.Strings(switching)
 	r.Floor("C04.R1", nFuncs, 7)
 	r.Note("scope_switching_functions", switching)
@@ -629,4 +710,96 @@ func exitKey(ret *ssa.Return) string {
 		}
 	}
 	return condString(iff.Cond) + " is " + side + " after " + last
+}
+
+// childOfReceiver: every *Env the method returns is allocated in the call with its parent link set to the receiver (or comes
+// from another such method called on the receiver); "" when so, else what was found.
+func childOfReceiver(fn *ssa.Function, seen map[*ssa.Function]bool) string {
+	if seen[fn] {
+		return ""
+	}
+	seen[fn] = true
+	if len(fn.Params) == 0 || len(fn.Blocks) == 0 {
+		return "it has no body to inspect"
+	}
+	recv := fn.Params[0]
+	parentField := func(t types.Type) int {
+		pt, ok := t.Underlying().(*types.Pointer)
+		if !ok {
+			return -1
+		}
+		st, ok := pt.Elem().Underlying().(*types.Struct)
+		if !ok {
+			return -1
+		}
+		for i := 0; i < st.NumFields(); i++ {
+			if types.Identical(st.Field(i).Type(), t) {
+				return i
+			}
+		}
+		return -1
+	}
+	pf := parentField(recv.Type())
+	if pf < 0 {
+		return "the scope type has no parent link"
+	}
+	var check func(v ssa.Value, vs map[ssa.Value]bool) string
+	check = func(v ssa.Value, vs map[ssa.Value]bool) string {
+		if vs[v] {
+			return ""
+		}
+		vs[v] = true
+		switch x := v.(type) {
+		case *ssa.Const:
+			if x.IsNil() {
+				return ""
+			}
+		case *ssa.Phi:
+			for _, e := range x.Edges {
+				if w := check(e, vs); w != "" {
+					return w
+				}
+			}
+			return ""
+		case *ssa.Alloc:
+			n := 0
+			for _, ref := range *x.Referrers() {
+				fa, ok := ref.(*ssa.FieldAddr)
+				if !ok || fa.Field != pf {
+					continue
+				}
+				for _, r2 := range *fa.Referrers() {
+					if st, ok := r2.(*ssa.Store); ok && st.Addr == ssa.Value(fa) {
+						n++
+						if st.Val != ssa.Value(recv) {
+							return "the new scope's parent link is set to a scope other than the receiver"
+						}
+					}
+				}
+			}
+			if n == 0 {
+				return "the new scope's parent link is never set"
+			}
+			return ""
+		case *ssa.Extract:
+			if c, ok := x.Tuple.(*ssa.Call); ok && x.Index == 0 {
+				return check(c, vs)
+			}
+		case *ssa.Call:
+			if g := staticCallee(x); g != nil && len(x.Call.Args) > 0 && x.Call.Args[0] == ssa.Value(recv) && g.Signature.Recv() != nil && types.Identical(g.Signature.Recv().Type(), recv.Type()) {
+				return childOfReceiver(g, seen)
+			}
+		}
+		return "it returns a scope that is not allocated in the call"
+	}
+	for _, b := range fn.Blocks {
+		ret, ok := b.Instrs[len(b.Instrs)-1].(*ssa.Return)
+		if !ok || len(ret.Results) == 0 {
+			continue
+		}
+		if w := check(ret.Results[0], map[ssa.Value]bool{}); w != "" {
+			return w
+		}
+	}
+	return ""
 }
